@@ -8,6 +8,11 @@
 
 #include <asmjit/support/support.h>
 
+#if defined(ASMJIT_VERIF)
+// Verification hook H1 (fault point): when non-null, asked before every arena request whether it must fail.
+extern "C" bool (*asmjit_verif_arena_fail_fn)(size_t size);
+#endif // ASMJIT_VERIF
+
 ASMJIT_BEGIN_NAMESPACE
 
 //! \addtogroup asmjit_support
@@ -316,6 +321,12 @@ public:
   [[nodiscard]]
   ASMJIT_INLINE T* alloc_oneshot(size_t size) noexcept {
     ASMJIT_ASSERT(Support::is_aligned(size, kAlignment));
+
+#if defined(ASMJIT_VERIF)
+    if (asmjit_verif_arena_fail_fn && asmjit_verif_arena_fail_fn(size)) {
+      return nullptr;
+    }
+#endif // ASMJIT_VERIF
 
 #if defined(__GNUC__)
     // We can optimize this function a little bit if we know that `size` is relatively small - which would mean
